@@ -47,7 +47,7 @@ def run(R):
             add(("u8", f), {"fn": "u8row", "f": f, "a": a})
     # ---- u64
     pairs = [(a, b) for a in B64 for b in B64]
-    nrand = 3000 if thorough else 300
+    nrand = 60000 if thorough else 300
     for i in range(nrand):
         a = R.rng.getrandbits(64)
         k = i % 4
@@ -100,6 +100,20 @@ def run(R):
             for f in ("eq", "ne"):
                 add(("mac", f, "len"), {"fn": "mac", "f": f, "a": base, "b": other})
                 add(("mac", f, "len"), {"fn": "mac", "f": f, "a": other, "b": base})
+    # differences repeated in every word (a comparison folding word differences with xor / add would cancel them): lengths 16, 32, 64
+    for n in (16, 32, 64):
+        base = vlib.prng_bytes(R.seed, "c18/rep/%d" % n, n)
+        for w in (8, 4, 2, 1):
+            for k in range(2):
+                delta = [R.rng.randrange(1, 256) for _ in range(w)] if k else [0] * (w - 1) + [0x80]
+                o = [base[q] ^ delta[q % w] for q in range(n)]
+                for fn, fs in (("arr8", ("ct_eq", "ct_ne")), ("sl8", ("ct_eq", "ct_ne")), ("mac", ("eq", "ne"))) + ((("tag", ("eq", "ne", "ct_eq", "ct_ne")),) if n == 16 else ()):
+                    for f in fs:
+                        add((fn, f, "rep"), {"fn": fn, "f": f, "a": base, "b": o})
+        half = n // 2
+        o = base[half:] + base[:half]
+        for f in ("eq", "ne"):
+            add(("mac", f, "rep"), {"fn": "mac", "f": f, "a": base, "b": o})
     # ---- u64 arrays / slices
     for n in range(0, 9):
         base = vlib.prng_bytes(R.seed, "c18/a64/%d" % n, 8 * n)
